@@ -13,8 +13,10 @@ import hashlib
 import json
 import os
 import random
+import shutil
 import subprocess
 import sys
+import tempfile
 from concurrent.futures import ThreadPoolExecutor
 from fractions import Fraction
 
@@ -411,6 +413,74 @@ def judge_cli(ctx: Ctx, cfg, matrix, results):
             return
 
 
+def same_folder_probe(kind, seed, repeats=3):
+    """the SAME command `repeats` times in fresh processes on the SAME data folder, cwd and output folder (cli_run gives every run a new
+    folder, so state a run leaves behind in the data folder or the cwd - derived dumps, checkpoints - is invisible there).
+    Returns [rows | None per run], log tail"""
+    r = random.Random(seed)
+    n = 2600
+    lab = [r.randrange(2) for _ in range(n)]
+    cols = ['f0', 'f1', 'f2', 'label']
+    rows = [[str(r.randrange(6)), str((lab[i] + r.randrange(3)) % 4), str(r.randrange(3) if i < n // 2 else r.randrange(9)), str(lab[i])] for i in range(n)]
+    d = tempfile.mkdtemp(prefix='verif_c09same_')
+    try:
+        if kind == 'ob-raw-dump':
+            os.makedirs(os.path.join(d, 'data', 'raw_data', '0_header'))
+            with open(os.path.join(d, 'data', 'raw_data', '0_header', 'header.csv'), 'w') as fh:
+                fh.write('\t'.join(cols) + '\n')
+            for k in range(2):
+                os.makedirs(os.path.join(d, 'data', 'raw_data', '1_train', f'part-{k}'))
+                with open(os.path.join(d, 'data', 'raw_data', '1_train', f'part-{k}', 'data.tsv'), 'w') as fh:
+                    fh.write('\t'.join(cols) + '\n')                    # every part's first line is taken as its header by the loader
+                    for row in rows[k * (n // 2):(k + 1) * (n // 2)]:
+                        fh.write('\t'.join(row) + '\n')
+        else:
+            os.makedirs(os.path.join(d, 'data'))
+            with open(os.path.join(d, 'data', 'data.csv'), 'w') as fh:
+                fh.write(','.join(cols) + '\n')
+                for row in rows:
+                    fh.write(','.join(row) + '\n')
+        cmd = [sys.executable, '-m', 'outrank', '--task', 'ranking', '--data_path', os.path.join(d, 'data'), '--data_source', kind,
+               '--heuristic', 'MI-numba-randomized', '--subsampling', '1', '--minibatch_size', '1100', '--num_threads', '2',
+               '--include_cardinality_in_feature_names', 'False', '--disable_tqdm', 'True', '--output_folder', 'out', '--target_ranking_only', 'False']
+        env = dict(os.environ)
+        env['PYTHONPATH'] = REPO
+        env['PYTHONHASHSEED'] = '0'
+        outs, log = [], ''
+        for _ in range(repeats):
+            pr = subprocess.run(cmd, cwd=d, env=env, stdout=subprocess.PIPE, stderr=subprocess.STDOUT, timeout=900)
+            log = pr.stdout.decode('utf-8', 'replace')[-600:]
+            f = os.path.join(d, 'out', 'pairwise_ranks.tsv')
+            outs.append(sc.read_rank_tsv(f) if os.path.exists(f) else None)
+            if os.path.exists(f):
+                os.remove(f)                                              # a run that writes nothing must not inherit the previous file
+        return outs, log
+    finally:
+        shutil.rmtree(d, ignore_errors=True)
+
+
+def judge_same_folder(ctx: Ctx, kind, seed, res):
+    outs, log = res
+    ctx.evaluations += len(outs)
+    ctx.count(f'p2-same-folder:{kind}', len(outs))
+    case = {'same_folder': kind, 'seed': seed}
+    if all(o is None for o in outs):
+        ctx.notes.append(f'same-folder probe for --data_source {kind} wrote no pairwise_ranks.tsv in any run (not judged); log tail: {log[-200:]}')
+        ctx.count(f'p2-same-folder-cannot-run:{kind}')
+        return
+    for i, o in enumerate(outs[1:], 2):
+        ctx.traces += 1
+        if outs[0] is not None and len(outs[0]) >= 6:
+            ctx.nontrivial.add(('same-folder', kind, seed, i))
+        if o is None or outs[0] is None or digest(o) != digest(outs[0]):
+            a, b = as_map(outs[0] or []), as_map(o or [])
+            k = next((k for k in a if b.get(k) != a[k]), None)
+            ctx.oracle_fail(f'fresh-run-same-folder:{kind}', f'the same ranking command (--data_source {kind}, 2600 rows, --minibatch_size 1100, --num_threads 2) run {len(outs)} times '
+                            f'in fresh processes on the SAME data folder and cwd: pairwise_ranks.tsv of run {i} differs from run 1, e.g. pair {k}: '
+                            f'{b.get(k)} vs {a.get(k)} ({len(o or [])} vs {len(outs[0] or [])} rows)', case)
+            return
+
+
 def part2_start(cfgs, thorough, only=None):
     """launch the fresh-process runs (they overlap with the in-process part); returns a handle for part2_finish"""
     sel = [cfg for cfg in cfgs if not only or cfg['name'] in only]
@@ -420,6 +490,9 @@ def part2_start(cfgs, thorough, only=None):
         cfg['_matrix'] = [tuple(x) for x in (cfg.get('matrix') or cli_matrix(cfg['name'], thorough))]
         futs.append([ex.submit(sc.cli_run, cfg['data'], hs, 900, bool(cfg.get('shim')), num_threads=t, **cfg['args']) for t, hs in cfg['_matrix']])
     probes = [ex.submit(noise_probe, hs) for hs in ('0', '1', 'random')]
+    if not only or 'same-folder' in only:
+        sf_seed = int(hashlib.md5(cfgs[0]['data'][:256].encode()).hexdigest()[:8], 16)
+        probes += [('same-folder', kind, sf_seed, ex.submit(same_folder_probe, kind, sf_seed)) for kind in ('ob-raw-dump', 'csv-raw')]
     if not only:
         sspecs = session_specs(random.Random(hashlib.md5(repr([c['name'] for c in cfgs]).encode() + cfgs[0]['data'][:64].encode()).hexdigest()))
         probes += [(sspecs, [ex.submit(session_probe, sp) for sp in sspecs])]
@@ -431,7 +504,9 @@ def part2_finish(ctx: Ctx, handle):
     try:
         for cfg, fs in zip(sel, futs):
             judge_cli(ctx, cfg, cfg['_matrix'], [f.result() for f in fs])
-        sess = [p for p in probes if isinstance(p, tuple)]
+        for p in [p for p in probes if isinstance(p, tuple) and p[0] == 'same-folder']:
+            judge_same_folder(ctx, p[1], p[2], p[3].result())
+        sess = [p for p in probes if isinstance(p, tuple) and p[0] != 'same-folder']
         pr = [f.result() for f in probes if not isinstance(f, tuple)]
         for sspecs, fs in sess:
             judge_sessions(ctx, sspecs, [f.result() for f in fs])
@@ -476,7 +551,7 @@ def search(ctx: Ctx):
     cfgs = cli_configs(sub.rng, False)
     for c in cfgs:
         c['matrix'] = [(1, '0'), (1, '1'), (1, '2'), (1, '3'), (4, '0'), (8, 'random')]
-    part2(sub, cfgs, False, only={'focus-pairwise', 'multivalue-pairwise', 'default-pairwise'})
+    part2(sub, cfgs, False, only={'focus-pairwise', 'multivalue-pairwise', 'default-pairwise', 'same-folder'})
     return sub.oracle_failures
 
 
@@ -486,6 +561,9 @@ def replay(ctx: Ctx, payload):
         specs = case['session']
         res = [session_probe(sp) for sp in specs]
         judge_sessions(ctx, [specs[0], specs[1], specs[0], specs[1]][:2] + [specs[0], specs[1]], [res[0], res[1], res[0], res[1]])
+        return
+    if 'same_folder' in case:
+        judge_same_folder(ctx, case['same_folder'], case['seed'], same_folder_probe(case['same_folder'], case['seed']))
         return
     if 'cli' in case:
         cfg = {'name': case['cli'], 'args': case['args'], 'data': case['data'], 'matrix': [tuple(x) for x in case['matrix']],
